@@ -71,7 +71,7 @@ def features(m: M.MDoc) -> set[str]:
                 f.add("single-bracket-item-with-and")
 
     def dup_keys(nodes):
-        ks = [n.key for n in nodes if isinstance(n, M.MAssign)]
+        ks = [n.key for n in nodes if isinstance(n, (M.MAssign, M.MBlock))]
         return len(ks) != len(set(ks))
 
     def comments_empty(cs):
